@@ -18,8 +18,10 @@
 (*                         clipped at the signal's width (Python slicing)                           *)
 (*             c      enclosing If condition: <<>> none | <<s, o>> the bit s[o] | <<s>> the word s   *)
 (* The builder machine adds records in increasing vocabulary order, so TLC's reachable states are    *)
-(* exactly the subsets (up to MaxDrv records) of the vocabulary, each carrying the set `exp` of      *)
-(* outcome classes the real tool may answer with.  The harness builds every state with amaranth.     *)
+(* exactly the subsets (up to MaxDrv records) of the vocabulary, each carrying the sets `exp` /      *)
+(* `expr` of outcome classes the real tool may answer with when the statements are written in the    *)
+(* order of drv / in the reverse order.  The harness builds every state with amaranth (both orders). *)
+(* Outcome classes: "ok" | "driver_conflict" | "comb_cycle".                                          *)
 EXTENDS Integers, Sequences, FiniteSets, SequencesExt, TLC
 
 CONSTANTS
@@ -140,7 +142,7 @@ Outcome(w, d) ==
 
 (* ------------------------------- builder machine ------------------------------- *)
 IsOut(r) == r.k \in OutKinds
-Rich(r) == r.f \notin {"slice", "out", "const"} \/ r.c # <<>>
+Rich(r) == r.f \notin {"slice", "out"} \/ r.c # <<>>
 NRich(d) == Cardinality({i \in 1..Len(d) : Rich(d[i])})
 Overlap(r1, r2) == r1.s = r2.s /\ Max2(r1.lo, r2.lo) < Min2(r1.hi, r2.hi)
 (* outside the property statement, hence not generated: two primitive outputs on one bit *)
